@@ -1,7 +1,7 @@
 (** Executable comparison ([agree]) and property oracle ([oracle]) of the C09 correspondence
     check, evaluated in the kernel on what the implementation did. *)
 From Coq Require Import Ascii String.
-From SioV Require Import Base.GoSem Sio.Json Sio.Header Sio.Binary Sio.Codec.
+From SioV Require Import Base.GoSem Sio.Json Sio.Header Sio.Binary Sio.Codec Sio.RoundtripProofs.
 Local Open Scope N_scope.
 
 (** Byte strings of the generated case files are written as hex strings (one token for Coq's
@@ -260,10 +260,25 @@ Definition oracle_mask (c : ccase) : N :=
   + (if reencode_ok c then 0 else 128).
 
 (** Known finding classes excluded: what remains must be 0. *)
+(** Finding binary-behind-deep-wrappers: some Binary of the value is out of reach of the two
+    unwrapping steps of deconstructValue / hasBinary (e.g. behind a pointer to an interface held in
+    an interface), so it is not made an attachment and the JSON encoder writes its bytes as they
+    are.  This is exactly the negation of the theorems' side condition on the reach ([wokp] and
+    "hasBinary sees it", the two last conjuncts of [wfv]). *)
+Definition deep_wrapped (c : ccase) : bool :=
+  match c_v c with
+  | Some x => negb (wokp false 2 x && (hb 2 x || nobin x))
+  | None => false
+  end.
+
 Definition known_mask (c : ccase) : N :=
   if negb (c_out c =? 0) then (if (c_out c =? 1) && negb (encodable c) then 1 else 0) else
+  if deep_wrapped c then 2 + 4 + 8 + 16 + (if header_rewritten c then 64 else 0) else
   (if typed_family_ok c then 0 else 8) + (if any_family_ok c then 0 else 16)
   + (if header_rewritten c then 64 else 0).
+
+(** 1 = the case is in the class binary-behind-deep-wrappers (its known bits carry that key). *)
+Definition known_class (c : ccase) : N := if deep_wrapped c then 1 else 0.
 
 Definition oracle (c : ccase) : bool := oracle_mask c =? 0.
 (** No failure outside the known classes. *)
